@@ -32,6 +32,9 @@ type scanEnding struct {
 	SleepMS    int  `json:"sleep_ms,omitempty"` // consumer pause between Next calls
 	// IdleAfterEnd: after Close / cancel the consumer does not touch the scanner for 3 renewal intervals
 	IdleAfterEnd bool `json:"idle_after_end,omitempty"`
+	// RenewSilent (scans through the whole client, Kind close, RenewMS > 0): the servers never answer lease
+	// renewals, and Close is called while one is in flight
+	RenewSilent bool `json:"renew_silent,omitempty"`
 }
 
 type scanCase struct {
